@@ -393,13 +393,13 @@ func genRefsScenario(g G, prop string) *Scenario {
 func genNastyConfig(g G, specs []GroupSpec) Config {
 	var cfg Config
 	foreign := []string{
-		"[foo]\n\tbar\n",                              // valueless key
-		"[foo]\n\tbaz =\n",                            // empty value
-		"[foo \"sub.section\"]\n\tkey = value\n",       // dotted subsection
-		"[foo \"Sub Section\"]\n\tKey = Value\n",       // capitals and space
+		"[foo]\n\tbar\n",                                 // valueless key
+		"[foo]\n\tbaz =\n",                               // empty value
+		"[foo \"sub.section\"]\n\tkey = value\n",         // dotted subsection
+		"[foo \"Sub Section\"]\n\tKey = Value\n",         // capitals and space
 		"[multi]\n\tline = \"first\\nsecond\\nthird\"\n", // multi-line value
-		"[refgroupx \"y\"]\n\tinclude = refs/heads\n",  // look-alike section
-		"[refgroup]\n\tinclude = refs/heads\n",         // refgroup without subsection
+		"[refgroupx \"y\"]\n\tinclude = refs/heads\n",    // look-alike section
+		"[refgroup]\n\tinclude = refs/heads\n",           // refgroup without subsection
 		"[xrefgroup \"z\"]\n\tinclude = refs/tags\n",
 		"[core]\n\tlogAllRefUpdates = false\n",
 		"[alias]\n\tlg = \"log --oneline \\\"$@\\\"\"\n",
